@@ -44,7 +44,13 @@ INTERP = ("zoh", "linear", "cubic")
 
 def cases(tier, seed):
   n = 200 if tier == "quick" else 3000
-  return [{"id": f"d{seed}_{i}", "seed": seed * 100000 + i, "start": STARTS[i % len(STARTS)]} for i in range(n)]
+  out = [{"id": f"d{seed}_{i}", "seed": seed * 100000 + i, "start": STARTS[i % len(STARTS)]} for i in range(n)]
+  # every sensor stage / special sensor list with a delay: position, velocity and acceleration stage sensors, joint and
+  # tendon limit pos / vel / frc, touch, tendon actuator force (each list has its own delay pass in sensor.py)
+  m = 16 if tier == "quick" else 300
+  for i in range(m):
+    out.insert(1 + i * (len(out) // m), {"id": f"stage{seed}_{i}", "kind": "stage", "seed": seed * 100000 + 50000 + i, "start": "stage"})
+  return out
 
 
 def _f(x):
@@ -374,10 +380,107 @@ def _init_probe(rec, mjm, m, d, twins, rng, h, use_none, ctx):
         S.set_field(d, "history", np.stack([np.asarray(t.history, np.float32) for t in twins]))
 
 
+STAGE_SENSORS = (
+  ("jointpos", 'joint="s0"'),
+  ("jointvel", 'joint="s0"'),
+  ("jointlimitpos", 'joint="s1"'),
+  ("jointlimitvel", 'joint="s1"'),
+  ("jointlimitfrc", 'joint="s1"'),
+  ("tendonpos", 'tendon="t0"'),
+  ("tendonvel", 'tendon="t0"'),
+  ("tendonlimitpos", 'tendon="t0"'),
+  ("tendonlimitvel", 'tendon="t0"'),
+  ("tendonlimitfrc", 'tendon="t0"'),
+  ("tendonactuatorfrc", 'tendon="t0"'),
+  ("jointactuatorfrc", 'joint="s1"'),
+  ("actuatorfrc", 'actuator="m1"'),
+  ("touch", 'site="ts"'),
+  ("accelerometer", 'site="ts"'),
+  ("force", 'site="ts"'),
+  ("framelinacc", 'objtype="site" objname="ts"'),
+  ("subtreelinvel", 'body="b0"'),
+)
+
+
+def _run_stage(case):
+  """Lock-step differential run against mj_step: one delayed sensor of every stage / special list."""
+  import mujoco_warp as mjw
+  import warp as wp
+
+  rec = core.Rec(case)
+  rng = np.random.default_rng(case["seed"])
+  h = float(rng.choice([2.0**-7, 2.0**-8]))
+  sens = []
+  kinds = []
+  for name, tgt in STAGE_SENSORS:
+    if rng.random() < 0.75:
+      ns = int(rng.integers(2, 8))
+      mult = float(rng.integers(1, ns + 1)) if rng.random() < 0.6 else float(rng.integers(0, ns)) + 0.5
+      sens.append(f'<{name} {tgt} delay="{_f(mult * h)}" nsample="{ns}" interp="{INTERP[rng.integers(3)]}"/>')
+      kinds.append(name)
+  if not sens:
+    sens.append('<jointlimitfrc joint="s0" delay="%s" nsample="3"/>' % _f(2 * h))
+    kinds.append("jointlimitfrc")
+  xml = f"""<mujoco><option timestep="{_f(h)}"/><worldbody>
+  <geom type="plane" size="2 2 .1"/>
+  <body name="b0" pos="0 0 0.5"><joint name="s0" type="slide" axis="0 0 1" limited="true" range="-0.4 0.4" damping="0.5"/><geom size="0.1" mass="1" contype="0" conaffinity="0"/>
+    <body name="b1" pos="0.3 0 0"><joint name="s1" type="slide" axis="1 0 0" limited="true" range="-0.1 0.1" damping="0.3"/><geom size="0.05" mass="0.5" contype="0" conaffinity="0"/></body></body>
+  <body name="bt" pos="1 0 0.12"><freejoint/><geom name="gt" size="0.1" mass="0.5"/><site name="ts" size="0.12"/></body>
+</worldbody>
+<tendon><fixed name="t0" limited="true" range="-0.2 0.2"><joint joint="s0" coef="1"/><joint joint="s1" coef="0.7"/></fixed></tendon>
+<actuator><motor name="m0" tendon="t0" gear="2"/><motor name="m1" joint="s1" gear="1.5"/></actuator>
+<sensor>{"".join(sens)}</sensor></mujoco>"""
+  mjm = mujoco.MjModel.from_xml_string(xml)
+  mjd = mujoco.MjData(mjm)
+  m = mw.put_model(mjm)
+  nworld = 2
+  d = mjw.put_data(mjm, mjd, nworld=nworld)
+  T = 90
+  bad = {}
+  seen_nonzero = set()
+  for t in range(T):
+    # drive the joints against their limits, the tendon against its limit, and let the ball bounce on the plane
+    c = np.array([8.0 * np.sin(0.21 * t + 0.3 * case["seed"]), 6.0 * np.cos(0.13 * t)])
+    mjd.ctrl[:] = c
+    wp.copy(d.ctrl, wp.array(np.tile(c.astype(np.float32), (nworld, 1)), dtype=float))
+    mujoco.mj_step(mjm, mjd)
+    mjw.step(m, d)
+    sd = d.sensordata.numpy()
+    # re-synchronise the state on MuJoCo's (float32-rounded) so that only the sensor pipeline is compared
+    for k in ("qpos", "qvel"):
+      wp.copy(getattr(d, k), wp.array(np.tile(getattr(mjd, k).astype(np.float32), (nworld, 1)), dtype=float))
+    for si, name in enumerate(kinds):
+      adr, dim = int(mjm.sensor_adr[si]), int(mjm.sensor_dim[si])
+      ref = mjd.sensordata[adr : adr + dim]
+      if np.any(ref != 0):
+        seen_nonzero.add(name)
+      for w in range(nworld):
+        rec.check()
+        err = float(np.abs(sd[w, adr : adr + dim] - ref).max())
+        # solver-dependent readings (constraint forces, accelerations) agree to the solver tolerance only
+        rel = 2e-2 if name in ("touch", "accelerometer", "force", "framelinacc", "jointlimitfrc", "tendonlimitfrc") else 2e-3
+        tol = rel * max(1.0, float(np.abs(ref).max()), float(np.abs(sd[w, adr : adr + dim]).max()))
+        rec.worst("stage:" + name, err / tol)
+        if err > 10 * tol and name not in bad:
+          bad[name] = f"delayed {name} sensor: MJWarp {sd[w, adr : adr + dim]} vs MuJoCo {ref} at step {t} world {w} (lock-step, state re-synchronised every step)"
+  for name, msg in bad.items():
+    rec.viol(f"stage-sensor-delay:{name}", msg)
+  for name in kinds:
+    rec.cover("stage_sensors_run", name)
+  for name in seen_nonzero:
+    rec.cover("stage_sensors_nonzero_reference", name)
+  rec.cover("start:stage", 1)
+  rec.nontrivial(xml)
+  rec.sample = {"kind": "stage", "sensors": kinds, "steps": T}
+  return rec.result()
+
+
 def run_case(case):
   import mujoco_warp as mjw
   import warp as wp
 
+  if case.get("kind") == "stage":
+    return _run_stage(case)
   rec = core.Rec(case)
   rng = np.random.default_rng(case["seed"])
   xml, h, plain, feats = gen_model(rng)
@@ -547,6 +650,10 @@ def run_case(case):
 def requirements(agg, tier):
   unmet = []
   cov = agg["cover"]
+  nz = set(cov.get("stage_sensors_nonzero_reference", []))
+  for name in ("jointlimitpos", "jointlimitvel", "jointlimitfrc", "tendonlimitfrc", "touch", "tendonactuatorfrc", "jointvel", "accelerometer"):
+    if name not in nz:
+      unmet.append(f"delayed {name} sensor never had a non-zero reference value")
   for s in STARTS:
     if cov.get("start:" + s, 0) < 10:
       unmet.append(f"start {s} exercised fewer than 10 times")
